@@ -1081,6 +1081,113 @@ func inModArm(f *an.Fn, n ast.Node) bool {
 	return false
 }
 
+// c04lazyPaths decides short-circuit evaluation on the paths of evalLogicalExpression: the right operand
+// is evaluated only where the operator is && and the left operand was true, or the operator is || and
+// the left operand was false; every return yields what the truth table demands on its path.  It
+// returns "" when that holds.
+func c04lazyPaths(c *an.Ctx, f *an.Fn) string {
+	p := c.P
+	info := f.Info()
+	var left *ast.Ident
+	var opProbe ast.Expr
+	opIsAnd := true
+	an.InspectOwn(f, func(n ast.Node) bool {
+		an.Assigns(n, func(lhs, rhs ast.Expr, _ token.Token) {
+			if id, ok := an.Unparen(lhs).(*ast.Ident); ok && rhs != nil && left == nil {
+				if strings.ReplaceAll(an.Norm(f, rhs), " ", "") == "isTrue($r.evalPrimaryExpressionGroup($p0.Left))" {
+					left = id
+				}
+			}
+		})
+		if b, ok := n.(*ast.BinaryExpr); ok && b.Op == token.EQL && opProbe == nil {
+			switch strings.ReplaceAll(an.Norm(f, b), " ", "") {
+			case "($p0.Operator.typ==itemAnd)", "(itemAnd==$p0.Operator.typ)":
+				opProbe, opIsAnd = b, true
+			case "($p0.Operator.typ==itemOr)", "(itemOr==$p0.Operator.typ)":
+				opProbe, opIsAnd = b, false
+			}
+		}
+		return true
+	})
+	if left == nil || opProbe == nil {
+		return "evalLogicalExpression does not keep the truthiness of the left operand and test the operator"
+	}
+	isRight := func(e ast.Expr) bool {
+		return strings.ReplaceAll(an.Norm(f, e), " ", "") == "isTrue($r.evalPrimaryExpressionGroup($p0.Right))"
+	}
+	why := ""
+	x := p.NewExplorer(f, an.Hooks{Call: func(x *an.Explorer, call *ast.CallExpr, st *an.State) {
+		if an.CalleeName(info, call) != "(*jet.Runtime).evalPrimaryExpressionGroup" || len(call.Args) != 1 || an.Norm(f, call.Args[0]) != "$p0.Right" {
+			return
+		}
+		st.Add("R", 1)
+		and, k1 := x.Truth(opProbe, st)
+		if !opIsAnd {
+			and = !and
+		}
+		l, k2 := x.Truth(left, st)
+		if !k1 || !k2 || and != l {
+			if why == "" {
+				why = "the right operand is evaluated on a path where the left operand already decides the result (or its truthiness / the operator is not known there)"
+			}
+		}
+	}})
+	x.Run(nil)
+	c.States += x.Visited
+	if x.Undecided != "" {
+		return x.Undecided
+	}
+	nRet := 0
+	for _, ex := range x.Exits {
+		if ex.Kind != an.ExitReturn || ex.Ret == nil || len(ex.Ret.Results) != 1 {
+			continue
+		}
+		nRet++
+		and, k1 := x.Truth(opProbe, ex.State)
+		if !opIsAnd {
+			and = !and
+		}
+		l, k2 := x.Truth(left, ex.State)
+		if !k1 || !k2 {
+			return "a return is reached without the operator and the left operand's truthiness being decided"
+		}
+		call, ok := an.Unparen(ex.Ret.Results[0]).(*ast.CallExpr)
+		if !ok || an.CalleeName(info, call) != "reflect.ValueOf" || len(call.Args) != 1 {
+			return "a return does not yield reflect.ValueOf(<bool>)"
+		}
+		arg := an.Unparen(call.Args[0])
+		kind := "?"
+		if tv, ok := info.Types[arg]; ok && tv.Value != nil {
+			kind = "c:" + tv.Value.ExactString()
+		} else if id, ok := arg.(*ast.Ident); ok && an.ObjOf(info, id) == an.ObjOf(info, left) {
+			kind = "L"
+		} else if isRight(arg) {
+			kind = "R"
+		}
+		switch {
+		case and != l: // left decides: false for &&, true for ||
+			want := "c:false"
+			if l {
+				want = "c:true"
+			}
+			if kind != want && kind != "L" {
+				return "a path on which the left operand decides the result returns " + an.Str(arg)
+			}
+			if ex.State.Int("R") != 0 {
+				return "the right operand is evaluated although the left one decides the result"
+			}
+		default:
+			if kind != "R" || ex.State.Int("R") != 1 {
+				return "a path on which the left operand does not decide the result does not return the truthiness of the right operand, evaluated once"
+			}
+		}
+	}
+	if nRet == 0 {
+		return "no return reached"
+	}
+	return why
+}
+
 func c04lazy(c *an.Ctx) {
 	p := c.P
 	if f := c.Fn("C04.lazy", "(*Runtime).evalLogicalExpression"); f != nil {
@@ -1130,7 +1237,16 @@ func c04lazy(c *an.Ctx) {
 			}
 			return true
 		})
-		c.Check(okLeft && okRight && nRight == 2, "C04.lazy", "(*Runtime).evalLogicalExpression", f.Pos(), "the right operand is evaluated only when the left one does not decide the result", firstNonEmpty(why, "evalLogicalExpression does not evaluate the right operand lazily after the left operand's truthiness"))
+		verdict := okLeft && okRight && nRight == 2
+		if !verdict {
+			// the same semantics written with early returns instead of Go's && / ||: decided on the paths
+			if pathWhy := c04lazyPaths(c, f); pathWhy == "" {
+				verdict = true
+			} else if why == "" || nRight != 2 {
+				why = pathWhy
+			}
+		}
+		c.Check(verdict, "C04.lazy", "(*Runtime).evalLogicalExpression", f.Pos(), "the right operand is evaluated only when the left one does not decide the result", firstNonEmpty(why, "evalLogicalExpression does not evaluate the right operand lazily after the left operand's truthiness"))
 	}
 	if f := c.Fn("C04.lazy", "(*Runtime).evalPrimaryExpressionGroup"); f != nil {
 		info := f.Info()
